@@ -882,7 +882,30 @@ class Interp:
                 return out
             return SV(isvec=True)
         if tail in ("normalized", "normalize"):
-            return SV(isvec=True, unorm=True, vid=self.new_vid())
+            src_ = first
+            derived = src_ is not None and src_.comps is not None and any(
+                c_ is not None and any("." in a_ and a_.rsplit(".", 1)[-1] in ("x", "y", "z") for a_ in (c_.num.atoms() | c_.den.atoms())) for c_ in src_.comps)
+            # the normalisation of a vector built from the components of another named vector is a unit vector that is *not* independent
+            # of that vector: its components may be used in proofs, never in refutations
+            if derived and len(src_.comps) == 3 and all(c_ is not None and c_.den == Poly.const(1) for c_ in src_.comps):
+                # exact components: v / sqrt(|v|^2) with the atom sqrt<|v|^2> (its square is |v|^2): frames built from it can be proved
+                n2 = Poly()
+                for c_ in src_.comps:
+                    n2 = n2 + c_.num * c_.num
+                n2 = self.reduce(n2)
+                if not n2.is_zero() and not n2.is_const():
+                    name = f"sqrt⟨{n2}⟩"
+                    self.sq[name] = n2
+                    out = SV(comps=[Rat(c_.num, Poly.atom(name)) for c_ in src_.comps], isvec=True, unorm=True)
+                    return out
+            return SV(isvec=True, unorm=True, vid=(UNK if derived else "") + self.new_vid())
+        if tail == "outer" and len(args) == 2 and args[0] is not None and args[0].sx is not None and args[0].arr \
+                and args[1] is not None and args[1].isvec and not args[1].arr:
+            # np.outer(scalars, vector): one multiple of the vector per scalar
+            cs_ = self.comps_of(args[1])
+            out = SV(comps=[args[0].sx * c_ for c_ in cs_] if cs_ is not None else None, isvec=True)
+            out.arr = True
+            return out
         if tail == "meshgrid" and len(args) == 2 and all(a is not None and a.arr and a.sx is not None for a in args):
             ij = next((au.const(k.value) for k in c.keywords if k.arg == "indexing"), "xy") == "ij"
             ax = (0, 1) if ij else (1, 0)
@@ -1037,11 +1060,33 @@ class Interp:
     # ------------------------------------------------------------------ statements
     def block(self, body, env):
         """returns the environment after the block, or None if every path left the function"""
-        for st in body:
+        for i, st in enumerate(body):
             if env is None:
                 return None
+            if self.cfg.unit and isinstance(st, ast.If) and self.__dict__.get("fork_budget", 3) > 0 and i + 1 < len(body):
+                # a branch that rebinds a vector with other explicit components (`if t.norm() < eps: t = <another tangent>`): the unit-vector
+                # obligations that follow must hold on each path, with the components of that path
+                e1 = self.block(st.body, dict(env))
+                e2 = self.block(st.orelse, dict(env))
+                if e1 is not None and e2 is not None and self._vector_fork(e1, e2):
+                    self.fork_budget = self.__dict__.get("fork_budget", 3) - 1
+                    r1 = self.block(body[i + 1:], e1)
+                    r2 = self.block(body[i + 1:], e2)
+                    if r1 is None or r2 is None:
+                        return r1 if r2 is None else r2
+                    return self.join_env(r1, r2, "", "", pre=env)
             env = self.stmt(st, env)
         return env
+
+    @staticmethod
+    def _vector_fork(e1, e2):
+        for k in set(e1) & set(e2):
+            a, b = e1[k].sym, e2[k].sym
+            if a is not None and b is not None and a is not b and a.isvec and b.isvec and a.comps is not None and b.comps is not None \
+                    and len(a.comps) == len(b.comps) and all(x is not None and y is not None for x, y in zip(a.comps, b.comps)) \
+                    and not all(x.same(y) for x, y in zip(a.comps, b.comps)):
+                return True
+        return False
 
     def stmt(self, st, env):
         if isinstance(st, (ast.If, ast.For, ast.AsyncFor, ast.While, ast.Try)):
